@@ -494,18 +494,20 @@ func (e *escaper) escapeTree(c context, node parse.Node, name string, line int) 
 	// identifier.
 	dname := mangle(c, name)
 	e.called[dname] = true
-	if out, ok := e.output[dname]; ok {
-		// Already escaped.
-		return out, dname
-	}
-	t := e.template(name)
-	if t != nil && t.Tree == nil {
-		// The template was rendered unusable by an earlier escaping error.
+	if bt := e.template(name); bt != nil && bt.Tree == nil {
+		// The template was rendered unusable by an earlier escaping error. This must be
+		// checked before the memoised contexts: a template that was escaped but ended in a
+		// non-text context is memoised and unusable at the same time.
 		return context{
 			state: stateError,
 			err:   errorf(ErrNoSuchTemplate, node, line, "%q could not be escaped earlier and is unusable", name),
 		}, dname
 	}
+	if out, ok := e.output[dname]; ok {
+		// Already escaped.
+		return out, dname
+	}
+	t := e.template(name)
 	if t == nil {
 		// Two cases: The template exists but is empty, or has never been mentioned at
 		// all. Distinguish the cases in the error messages.
